@@ -45,6 +45,7 @@ package defers
 //@ func stackSetUnion
 //@   property C16
 //@   opaque stackCompare
+//@   persite
 //@   requires sorted_a: sortedStrict(a)
 //@   requires sorted_b: sortedStrict(b)
 //@   ensures sorted{sorted}: sortedStrict(r)
